@@ -18,16 +18,30 @@ from vf import fockref, gen, refsim, sfrun, spec
 from vf.core import Sub
 
 RULE = ("programs of 1..4 modes built from blocks of 2..3 same-family operations on the same wire (generic / inverse / "
-        "daggered / equal / non-mergeable second parameter), interleaved with commands on other wires; every one-mode "
-        "Gate, Channel, Preparation and 1x1 Decomposition family; free symbolic parameters; non-trivial = the optimised "
-        "circuit is shorter than the source (a merge or cancellation really happened)")
+        "daggered / equal / non-mergeable second parameter / nearly-inverse first and nearly-equal second parameters), interleaved "
+        "with commands on other wires; every one-mode Gate, Channel, Preparation and 1x1 Decomposition family; free symbolic "
+        "parameters (first and second parameters, the same symbol in both operations, scaled/negated symbols, channel "
+        "transmissions); operation objects shared by several commands; compile(shots=.., backend options); non-trivial = the "
+        "optimised circuit is shorter than the source (a merge or cancellation really happened)")
 ASSUMPTIONS = [
     "Gaussian maps compared at 1e-9 absolute (hbar=2); fock states at 1e-9 (Kgate on bounded-photon kets is exact), Vgate 1e-7",
     "refsim encodes the documented maps (self-tested)",
     "two-mode families are never merged by the optimiser (documented todo); they are generated to check they are left alone",
+    "nearly cancelling pairs leave a residual of 1e-4..1e-7 (first parameter, transmission, matrix product) resp. differ by that much "
+    "in the second parameter: 100x..1e5x above the comparison tolerance, so a wrongly cancelled/merged pair is visible",
+    "symbols t, u (channel transmission / nbar) are bound in [0.1, 1]; a, b in [-0.8, 0.8]",
+    "pairs of 1x1 GraphEmbed and of one-mode Ggate are NOT generated (audit findings graphembed-pair, ggate-pair: out/audit/C03-*.json); "
+    "the replay of the GraphEmbed case reads GraphEmbed through the library's own unoptimised 'gaussian' decomposition on both sides",
 ]
 REQUIRED_LABELS = {"all": ["merged", "merge_to_identity", "dagger_pair", "channel_merge", "fourier_pair", "prep_pair",
-                           "symbolic_param_merge", "family:Sgate", "family:LossChannel", "family:Kgate"]}
+                           "symbolic_param_merge", "family:Sgate", "family:LossChannel", "family:Kgate",
+                           "shared_op", "compile_kwargs", "rel:near_inverse", "rel:second_nearly_equal", "rel:sym_same", "rel:sym_second"]}
+
+RELS = ["generic", "inverse", "dagger", "equal", "second_differs", "triple", "inverse_second_differs", "dagger_second_differs",
+        # audit additions
+        "near_inverse", "second_nearly_equal", "second_nearly_equal", "generic_dagger", "sym_same", "sym_second", "sym_second"]
+NEAR_EPS = [1e-4, 1e-6, 1e-7, -1e-6, -1e-7]          # residual of a nearly cancelling pair (well above the 1e-9 oracle tolerance)
+BIND_DEFAULT = {"a": 0.0, "b": 0.0, "t": 0.5, "u": 0.75}   # t, u: symbols used as channel transmissions / nbar (bound in (0, 1])
 
 ONE_MODE_G = ["Dgate", "Xgate", "Zgate", "Sgate", "Pgate", "Rgate", "Fouriergate"]
 TWO_MODE_G = ["BSgate", "S2gate", "MZgate", "sMZgate", "CXgate", "CZgate"]
@@ -48,32 +62,64 @@ def block(draw, n, families, energy="ps", allow_free=False):
     if two and n < 2:
         fam, two = "Sgate", False
     modes = list(draw(st.permutations(list(range(n))))[: 2 if two else 1])
-    rel = draw(st.sampled_from(["generic", "inverse", "dagger", "equal", "second_differs", "triple", "inverse_second_differs", "dagger_second_differs"]))
+    rel = draw(st.sampled_from(RELS))
+    if allow_free and rel == "second_nearly_equal" and fam not in ("Dgate", "Sgate", "ThermalLossChannel", "BSgate", "S2gate", "MZgate", "sMZgate"):
+        # the relation needs a family with a second parameter; mostly a one-mode one, where a merge is possible at all
+        fam, two, modes = draw(st.sampled_from(["Dgate", "Sgate", "ThermalLossChannel"])), False, modes[:1]
     out = []
 
     def mk(params, H=False):
         return [fam.rstrip("1") if fam.endswith("1") else fam, params, modes, {"H": True} if H else {}]
 
+    def cm(z):
+        return spec.enc_matrix(np.array([[complex(z)]]))
+
+    if fam in ("PassiveChannel1", "Interferometer1", "GaussianTransform1", "GraphEmbed1", "Ggate1"):
+        # matrix families know three relations only: about a quarter of the blocks each for inverse / near_inverse
+        rel = ("inverse" if rel in ("inverse", "dagger", "equal", "inverse_second_differs") else
+               "near_inverse" if rel in ("near_inverse", "dagger_second_differs", "sym_same", "sym_second") else "generic")
     if fam == "PassiveChannel1":
         t1 = draw(gen.fl(0.2, 1.0)) * np.exp(1j * draw(gen.angle()))
-        t2 = (1 / t1) if rel == "inverse" and abs(t1) == 1 else draw(gen.fl(0.2, 1.0)) * np.exp(1j * draw(gen.angle()))
-        if rel == "inverse":
+        t2 = draw(gen.fl(0.2, 1.0)) * np.exp(1j * draw(gen.angle()))
+        if rel in ("inverse", "near_inverse"):
             t1 = np.exp(1j * draw(gen.angle()))
             t2 = np.conj(t1)
-        return [mk([spec.enc_matrix(np.array([[t1]]))]), mk([spec.enc_matrix(np.array([[t2]]))])], fam, rel
+        if rel == "near_inverse":
+            # the product is within 1e-4..1e-7 of the identity but is NOT the identity: must be kept
+            t2 = t2 * (1.0 - abs(draw(st.sampled_from(NEAR_EPS))))
+        return [mk([cm(t1)]), mk([cm(t2)])], fam, rel
     if fam == "Interferometer1":
         a, b = draw(gen.angle()), draw(gen.angle())
-        if rel == "inverse":
+        if rel in ("inverse", "near_inverse"):
             b = -a
-        return [mk([spec.enc_matrix(np.array([[np.exp(1j * a)]]))]), mk([spec.enc_matrix(np.array([[np.exp(1j * b)]]))])], fam, rel
+        if rel == "near_inverse":
+            b = b + draw(st.sampled_from(NEAR_EPS))
+        return [mk([cm(np.exp(1j * a))]), mk([cm(np.exp(1j * b))])], fam, rel
     if fam == "GaussianTransform1":
+        R = lambda t: np.array([[np.cos(t), -np.sin(t)], [np.sin(t), np.cos(t)]])  # noqa: E731
+
         def symp():
             th, r, ph = draw(gen.angle()), draw(gen.fl(-0.5, 0.5)), draw(gen.angle())
-            R = lambda t: np.array([[np.cos(t), -np.sin(t)], [np.sin(t), np.cos(t)]])  # noqa: E731
             return R(th) @ np.diag([np.exp(-r), np.exp(r)]) @ R(ph)
         S1 = symp()
-        S2 = np.linalg.inv(S1) if rel == "inverse" else symp()
+        S2 = np.linalg.inv(S1) if rel in ("inverse", "near_inverse") else symp()
+        if rel == "near_inverse":
+            S2 = S2 @ R(draw(st.sampled_from(NEAR_EPS)))
         return [mk([spec.enc_matrix(S1)]), mk([spec.enc_matrix(S2)])], fam, rel
+    if fam == "GraphEmbed1":
+        # 1x1 adjacency matrices (two graph embeddings in a row on one mode)
+        x1, x2 = draw(gen.fl(0.1, 0.9)), draw(gen.fl(0.1, 0.9))
+        return [mk([spec.enc_matrix(np.array([[x1]]))]), mk([spec.enc_matrix(np.array([[x2]]))])], fam, rel
+    if fam == "Ggate1":
+        # general one-mode Gaussian gate G(S, d): a Gate whose first parameter is a matrix
+        def sd():
+            th, r = draw(gen.angle()), draw(gen.fl(-0.5, 0.5))
+            S = np.array([[np.cos(th), -np.sin(th)], [np.sin(th), np.cos(th)]]) @ np.diag([np.exp(-r), np.exp(r)])
+            return [spec.enc_matrix(S), spec.enc_vec([draw(gen.fl(-1.0, 1.0)), draw(gen.fl(-1.0, 1.0))])]
+        g1, g2 = sd(), sd()
+        if draw(st.booleans()):
+            g2[1] = g1[1]
+        return [mk(g1), mk(g2)], fam, rel
     if fam in PREP:
         return [mk(draw(gen.op_params(fam, energy))), [draw(st.sampled_from(PREP)), None, modes, {}]], fam, "prep_pair"
     p1 = draw(gen.op_params(fam, energy))
@@ -86,6 +132,13 @@ def block(draw, n, families, energy="ps", allow_free=False):
     p2 = draw(gen.op_params(fam, energy))
     p2[1:] = p1[1:]
     h1 = h2 = False
+    if allow_free and fam in CHAN and rel in ("sym_same", "sym_second", "generic_dagger", "dagger_second_differs", "inverse_second_differs"):
+        rel = "sym_channel"      # (the dagger relations mean nothing for a channel)
+    elif rel in ("sym_same", "sym_second"):
+        if not allow_free:
+            rel = "generic_dagger"
+        elif len(p1) == 1:
+            rel = "sym_same"
     if rel == "inverse" and fam not in CHAN:
         p2[0] = -p1[0]
     elif rel == "inverse":
@@ -109,7 +162,63 @@ def block(draw, n, families, energy="ps", allow_free=False):
         p2[0] = p1[0]
         p2[1] = p1[1] + draw(st.sampled_from([0.3, 1.7]))
         h2 = True
-    if allow_free and fam not in CHAN and draw(st.integers(0, 3)) == 0:
+    elif rel == "near_inverse" and fam not in CHAN:
+        # the pair cancels up to a residual of 1e-4..1e-7: a gate with that parameter must remain
+        eps = draw(st.sampled_from(NEAR_EPS))
+        if draw(st.booleans()):
+            p2[0] = -p1[0] + eps
+        else:
+            p2[0] = p1[0] + eps
+            h2 = True
+    elif rel == "near_inverse":
+        # channels: the merged transmission is 1 - (1e-4..1e-7), not the identity channel
+        p1[0] = draw(st.sampled_from([1.0, 1.0, 1.0 - 1e-7]))
+        p2[0] = 1.0 - abs(draw(st.sampled_from(NEAR_EPS)))
+    elif rel == "second_nearly_equal" and len(p1) > 1:
+        # the other parameters differ by 1e-4..1e-7 only: still not the same family member, adding p[0] is wrong.
+        # First parameters are kept away from the neutral element (there the second parameter does not matter).
+        for p in (p1, p2):
+            if fam in CHAN and not 0.05 <= p[0] <= 0.95:
+                p[0] = 0.5
+            elif fam not in CHAN and abs(p[0]) < 0.05:
+                p[0] = 0.4
+        if draw(st.booleans()):
+            p1[1] = draw(gen.fl(0.3, 3.0))
+        p2[1] = p1[1] + abs(draw(st.sampled_from(NEAR_EPS)))
+        if fam not in CHAN:
+            k = draw(st.integers(0, 2))
+            if k == 1:
+                p2[0] = -p1[0]
+            elif k == 2:
+                p2[0] = p1[0]
+                h2 = True
+    elif rel == "generic_dagger" and fam not in CHAN:
+        h1, h2 = draw(st.booleans()), draw(st.booleans())
+    elif rel == "sym_same":
+        # the same free symbol in both operations (a, 2a, -a, a/2): sums that cancel or simplify symbolically
+        a = ["free", "a"]
+        e1 = draw(st.sampled_from([a, ["mul", 2.0, a], ["neg", a]]))
+        e2 = draw(st.sampled_from([a, ["neg", a], e1, ["neg", e1], ["mul", 0.5, a]]))
+        p1[0], p2[0] = e1, e2
+        h1, h2 = draw(st.booleans()), draw(st.booleans())
+    elif rel == "sym_second":
+        # symbolic second parameters: the same symbol (mergeable) or different symbols / a negated symbol (not mergeable)
+        p1[1] = ["free", "b"]
+        p2[1] = draw(st.sampled_from([["free", "b"], ["free", "b"], ["free", "a"], ["neg", ["free", "b"]]]))
+        k = draw(st.integers(0, 2))
+        if k == 1:
+            p2[0] = -p1[0]
+        elif k == 2:
+            p2[0] = p1[0]
+            h2 = True
+    elif rel == "sym_channel":
+        # symbolic transmissions (t, u are bound in (0, 1]) and, for the thermal loss channel, a symbolic nbar
+        p1[0] = ["free", "t"]
+        p2[0] = draw(st.sampled_from([["free", "t"], ["free", "u"], p2[0]]))
+        if len(p1) > 1 and draw(st.booleans()):
+            p1[1] = ["free", "u"]
+            p2[1] = draw(st.sampled_from([["free", "u"], ["free", "u"], ["free", "t"]]))
+    if allow_free and fam not in CHAN and not rel.startswith("sym") and rel not in ("near_inverse", "second_nearly_equal") and draw(st.integers(0, 3)) == 0:
         # free symbolic first parameters: ["free", name]; values are bound from case["bind"]
         p1[0] = ["free", "a"]
         if draw(st.booleans()):
@@ -126,7 +235,9 @@ def block(draw, n, families, energy="ps", allow_free=False):
 @st.composite
 def gauss_case(draw):
     n = draw(st.integers(1, 4))
-    fams = ONE_MODE_G + ONE_MODE_G + TWO_MODE_G + CHAN + PREP + DECOMP
+    # "GraphEmbed1" (findings F62, fixed: two 1x1 GraphEmbed in a row were merged by multiplying the adjacency matrices); "Ggate1" is left out:
+    # the gaussian / fock / bosonic compilers cannot run it (TF backend only) and F63 (optimize() raised ValueError on a pair) is pinned by a replay
+    fams = ONE_MODE_G + ONE_MODE_G + TWO_MODE_G + CHAN + PREP + DECOMP + ["GraphEmbed1"]
     blocks = [draw(block(n, fams, "ps", allow_free=True)) for _ in range(draw(st.integers(1, 4)))]
     # interleave: ops of a block stay in order; between them ops of other blocks may appear
     seqs = [b[0] for b in blocks]
@@ -142,16 +253,49 @@ def gauss_case(draw):
     for o in ops_:
         if o[1] is None:
             o[1] = draw(gen.op_params(o[0], "ps"))
-    bind = {"a": draw(gen.fl(-0.8, 0.8)), "b": draw(gen.fl(-0.8, 0.8))}
+    # operation objects shared by several commands (g = Sgate(r); g | q[0]; g | q[1]; g | q[0]): the op spec flagged
+    # {"share": u} re-uses the object built for the earlier spec flagged {"tag": u}, on the same or on other modes
+    for u in range(draw(st.sampled_from([0, 0, 1, 1, 2]))):
+        j = draw(st.integers(0, len(ops_) - 1))
+        srcop = ops_[j]
+        tag = srcop[3].get("share", srcop[3].get("tag", u))
+        if "share" not in srcop[3]:
+            srcop[3] = dict(srcop[3], tag=tag)
+        modes = list(srcop[2]) if draw(st.booleans()) else list(draw(st.permutations(list(range(n))))[: len(srcop[2])])
+        flags = {k: v for k, v in srcop[3].items() if k != "tag"}
+        flags["share"] = tag
+        at = draw(st.sampled_from([j + 1, j + 1, len(ops_)])) if draw(st.booleans()) else draw(st.integers(j + 1, len(ops_)))
+        ops_.insert(at, [srcop[0], srcop[1], modes, flags])
+    bind = {"a": draw(gen.fl(-0.8, 0.8)), "b": draw(gen.fl(-0.8, 0.8)), "t": draw(gen.fl(0.1, 1.0)), "u": draw(gen.fl(0.1, 1.0))}
+    targets = ["none", "gaussian", "gaussian", "fock", "bosonic"]
+    if any(b[1] in DECOMP for b in blocks):
+        # every compiler decomposes these before it optimises: Decomposition.merge is reached by Program.optimize() only
+        targets = ["none", "none", "none"] + targets
+    # keyword arguments of compile() next to optimize=True: run options (shots) and backend options end up in the compiled copy only
+    ckw = draw(st.sampled_from([{}, {}, {"shots": 3}, {"shots": 2, "cutoff_dim": 6}, {"warn_connected": False}]))
     return {"n": n, "ops": ops_, "bind": bind, "fams": sorted({b[1] for b in blocks}), "rels": sorted({b[2] for b in blocks}),
-            "target": draw(st.sampled_from(["none", "gaussian", "gaussian", "fock", "bosonic"]))}
+            "target": draw(st.sampled_from(targets)), "ckw": ckw}
+
+
+def _ev(p, bind):
+    """value of a symbolic parameter AST (["free", name] | ["neg", x] | ["mul", x, y] | ["add", x, y]) under the binding"""
+    if isinstance(p, list) and p and isinstance(p[0], str):
+        if p[0] == "free":
+            return bind[p[1]]
+        if p[0] == "neg":
+            return -_ev(p[1], bind)
+        if p[0] == "mul":
+            return _ev(p[1], bind) * _ev(p[2], bind)
+        if p[0] == "add":
+            return _ev(p[1], bind) + _ev(p[2], bind)
+        raise ValueError("unknown parameter expression %r" % (p,))
+    return p
 
 
 def _numeric(ops_, bind):
     out = []
     for o in ops_:
-        ps = [bind[p[1]] if isinstance(p, list) and p and p[0] == "free" else p for p in o[1]]
-        out.append([o[0], ps, o[2], o[3] if len(o) > 3 else {}])
+        out.append([o[0], [_ev(p, bind) for p in o[1]], o[2], o[3] if len(o) > 3 else {}])
     return out
 
 
@@ -162,16 +306,33 @@ def _build(case):
     syms = {}
 
     def sym(ast):
-        name = ast[1]
-        if name not in syms:
-            syms[name] = prog.params(name)
-        return syms[name]
+        if not isinstance(ast, list):
+            return ast
+        if ast[0] == "free":
+            name = ast[1]
+            if name not in syms:
+                syms[name] = prog.params(name)
+            return syms[name]
+        if ast[0] == "neg":
+            return -sym(ast[1])
+        if ast[0] == "mul":
+            return sym(ast[1]) * sym(ast[2])
+        if ast[0] == "add":
+            return sym(ast[1]) + sym(ast[2])
+        raise ValueError("unknown parameter expression %r" % (ast,))
 
     from strawberryfields import ops
 
+    built = {}
     with prog.context as q:
         for o in case["ops"]:
-            op = spec.make_op(ops, o[0], o[1], o[3] if len(o) > 3 else {}, sym)
+            flags = o[3] if len(o) > 3 else {}
+            if flags.get("share") is not None and flags["share"] in built:
+                op = built[flags["share"]]          # the very same Operation object once more
+            else:
+                op = spec.make_op(ops, o[0], o[1], flags, sym)
+            if flags.get("tag") is not None:
+                built[flags["tag"]] = op
             regs = tuple(q[m] for m in o[2])
             op | (regs if len(regs) > 1 else regs[0])
     return prog, syms
@@ -183,14 +344,24 @@ def _specs_bound(prog, circuit, bind):
     return spec.circuit_to_specs(circuit)
 
 
+def _ref_specs(progobj, bind):
+    """numeric specs of a program's circuit; GraphEmbed (whose phase-space map refsim does not encode) is read through the
+    library's own unoptimised decomposition, on both sides of the comparison (the decomposition itself is C02's subject)"""
+    circuit = progobj.circuit
+    if any(c.op.__class__.__name__ == "GraphEmbed" for c in circuit):
+        circuit = progobj.compile(compiler="gaussian", optimize=False).circuit
+    return _specs_bound(progobj, circuit, bind)
+
+
 def check_gauss(ctx, case):
     import warnings
 
     from strawberryfields.program_utils import CircuitError
 
-    n, bind = case["n"], case["bind"]
-    src_num = _numeric(case["ops"], bind)
-    doc = spec.ref_run(n, src_num, 2.0)
+    n, bind = case["n"], dict(BIND_DEFAULT, **case["bind"])
+    ckw = dict(case.get("ckw") or {})
+    has_ge = any(o[0] == "GraphEmbed" for o in case["ops"])
+    doc = None if has_ge else spec.ref_run(n, _numeric(case["ops"], bind), 2.0)
     prog, syms = _build(case)
     before = spec.snapshot(prog)
     labels = ["family:" + f.rstrip("1") for f in case["fams"]] + ["rel:" + r for r in case["rels"]]
@@ -200,6 +371,10 @@ def check_gauss(ctx, case):
         labels.append("fourier_pair")
     if "prep_pair" in case["rels"]:
         labels.append("prep_pair")
+    if any((o[3] if len(o) > 3 else {}).get("share") is not None for o in case["ops"]):
+        labels.append("shared_op")
+    if ckw and case["target"] != "none":
+        labels.append("compile_kwargs")
     with warnings.catch_warnings():
         warnings.simplefilter("ignore")
         try:
@@ -207,8 +382,8 @@ def check_gauss(ctx, case):
                 opt = prog.optimize()
                 plain_len = len(prog.circuit)
             else:
-                opt = prog.compile(compiler=case["target"], optimize=True)
-                plain = prog.compile(compiler=case["target"], optimize=False)
+                opt = prog.compile(compiler=case["target"], optimize=True, **ckw)
+                plain = prog.compile(compiler=case["target"], optimize=False, **ckw)
                 plain_len = len(plain.circuit)
         except CircuitError:
             ctx.note(case, False, ["rejected:" + case["target"]])
@@ -232,11 +407,15 @@ def check_gauss(ctx, case):
     if d:
         return ctx.fail("optimize.mutated_source", "source program changed by optimize/compile: " + d)
     try:
-        if case["target"] != "none":
-            # isolate the optimiser from the (finite) precision of the decompositions: compare with the unoptimised
-            # compilation of the same program (the decompositions themselves are C02's subject)
-            doc = spec.ref_run(n, _specs_bound(plain, plain.circuit, bind), 2.0)
-        got_specs = _specs_bound(opt, opt.circuit, bind)
+        with warnings.catch_warnings():
+            warnings.simplefilter("ignore")
+            if case["target"] != "none":
+                # isolate the optimiser from the (finite) precision of the decompositions: compare with the unoptimised
+                # compilation of the same program (the decompositions themselves are C02's subject)
+                doc = spec.ref_run(n, _specs_bound(plain, plain.circuit, bind), 2.0)
+            elif has_ge:
+                doc = spec.ref_run(n, _ref_specs(prog, bind), 2.0)
+            got_specs = _ref_specs(opt, bind)
         got = spec.ref_run(n, got_specs, 2.0)
     except refsim.RefError as exc:
         return ctx.fail("optimize.unknown_op", str(exc))
@@ -401,7 +580,9 @@ SUBS = [
 MANIFEST = {
     "technique": "Hypothesis metamorphic testing: optimised vs source program as full phase-space maps (refsim) and as Fock/bosonic states; snapshot immutability",
     "text": ("Programs are generated from blocks of same-family neighbours (every one-mode gate, channel, preparation and 1x1 decomposition "
-             "family; inverse, daggered, equal, symbolic and non-mergeable pairs) so that merges and cancellations really happen; the optimised "
+             "family; inverse, daggered, equal, nearly-inverse, symbolic (first/second parameter, same symbol, channel transmission) and "
+             "non-mergeable pairs incl. second parameters that differ by 1e-7; operation objects used by several commands; compile() with "
+             "run/backend options) so that merges and cancellations really happen; the optimised "
              "circuit must be the same affine phase-space map (Gaussian) / give the same state (Kerr, cubic phase, measurement-based squeezing), "
              "must not be longer, and the source program must be bit-for-bit untouched."),
 }
